@@ -348,8 +348,8 @@ fn run_in(dir: &std::path::Path, ops: &[DOp]) -> String {
 //                         main's 3729a46: the tree stays until VACUUM)
 //   index_ddl_rollback    CREATE UNIQUE INDEX / ADD CONSTRAINT inside a session that rolls back                   (region)
 //   alter_rollback        other ALTER inside a session that rolls back       (flag updateKeepsInserterXmin)
-//   concurrent_create     two open sessions create the same name: the second committer is refused (fix 6e47b6b), but its
-//                         entry replaced the first one's in the name index — the committed table no longer resolves  (region)
+//   concurrent_create     two open sessions create the same name: the second CREATE is refused with a conflict when it
+//                         runs (fix e915fd1; the specification refuses the second COMMIT)   (flag createRefusedWhileNameHeld)
 
 #[derive(Clone)]
 struct GTable {
